@@ -3,10 +3,11 @@
   Reads case lines on stdin, answers every line with exactly one line on stdout.
 -/
 import Driver.Token
+import Driver.Pod
 
 def dispatch (st : Unit) (line : String) : Unit × String :=
   let toks := (line.trimAscii.toString.splitOn " ").filter (· ≠ "")
-  match Driver.Tok.handle toks with
+  match (Driver.Tok.handle toks <|> Driver.PodD.handle toks) with
   | some s => (st, s)
   | none => (st, "bad-op")
 
